@@ -517,3 +517,29 @@ B('pB2_tagged_tags_collide', ['C07'], 'R07.a',
 B('pB2_tagged_redirect_returned_late', ['C07'], 'R07.a', (A, _TAGS_ANCHOR, _TAGS),
   (A, _SLASH, _tagged(consume="            if slash_outcome == _SLASHES_NOT_FOUND:\n                dispatch_state.add_exception(slash_result)\n                continue\n"
                               "            if slash_outcome == _SLASHES_REDIRECT and route.methods:\n                return slash_result\n")))
+
+# ---------------------------------------------------------------------------------------------- second pass: "the correction, or None"
+# (a helper returning the canonical path when it differs from the request path, else None -- as the loader inlines it)
+def _correction(first="            norm_path = None\n", clear="                if norm_path == url_path:\n                    norm_path = None\n"):
+    return (first +
+            "            if route.is_branch:\n"
+            "                norm_path = normalize_path(url_path, route.is_branch)\n" + clear +
+            "            if norm_path is None:\n"
+            "                pass\n"
+            "            elif route.slash_mode == S_REDIRECT:\n" + _QUERY.replace('                    ', '                ') +
+            "                return redirect(''.join([request.url_root.rstrip('/'), url_quote(norm_path), '?', query]))\n"
+            "            elif route.slash_mode == S_STRICT:\n" + _STRICT.replace('                    ', '                '))
+
+
+T('pB2_twin_correction_or_none', ['C06', 'C07', 'C08'], (A, _SLASH, _correction()))
+B('pB2_correction_never_cleared', ['C07'], 'R07.a', (A, _SLASH, _correction(clear='')))
+B('pB2_correction_cleared_when_it_differs', ['C07'], 'R07.a',
+  (A, _SLASH, _correction(clear="                if norm_path != url_path:\n                    norm_path = None\n")))
+B('pB2_correction_defaults_to_request_path', ['C07'], 'R07.a', (A, _SLASH, _correction(first="            norm_path = url_path\n")))
+# the dispatch state under a second name in the sentinel handler
+_HS_ALIAS = ("        state = _dispatch_state\n" + _HS_EXC.replace('_dispatch_state', 'state') + _HS_405.replace('_dispatch_state', 'state') +
+             _HS_404)
+T('pB2_twin_sentinel_state_alias', ['C06'], (R, _HS, _HS_ALIAS))
+B('pB2_sentinel_state_alias_first_error', ['C06'], 'R06.c', (R, _HS, _HS_ALIAS.replace('parked[-1]', 'parked[0]')))
+B('pB2_sentinel_state_alias_405_first', ['C06'], 'R06.c',
+  (R, _HS, "        state = _dispatch_state\n" + _HS_405.replace('_dispatch_state', 'state') + _HS_EXC.replace('_dispatch_state', 'state') + _HS_404))
